@@ -141,7 +141,14 @@ impl Property for C01 {
     fn check(spec: &Spec, env: &mut Env) -> Outcome {
         let mut o = Outcome::new();
         let n = spec.owners.len();
-        let mut signers: Vec<KeySpec> = spec.owners.iter().enumerate().filter(|(i, _)| spec.signed_mask >> (i % 8) & 1 == 1).map(|(_, k)| k.clone()).collect();
+        let mut signers: Vec<KeySpec> = if n > 8 {
+            // many owners: all sign (mask divisible by 3), or all but one - the one at a generated position
+            let missing = if spec.signed_mask % 3 == 0 { usize::MAX } else { (spec.signed_mask as usize * 7) % n };
+            o.class(if missing == usize::MAX { "many-owners:all-signed" } else { "many-owners:one-missing" });
+            spec.owners.iter().enumerate().filter(|(i, _)| *i != missing).map(|(_, k)| k.clone()).collect()
+        } else {
+            spec.owners.iter().enumerate().filter(|(i, _)| spec.signed_mask >> (i % 8) & 1 == 1).map(|(_, k)| k.clone()).collect()
+        };
         if signers.is_empty() {
             signers.push(spec.owners[0].clone());
         }
